@@ -418,10 +418,18 @@ def _r5(ctx, pkg):
         # (entry points); for a helper called only from inside, a parameter is an input only if some call site passes an input
         # (or an alias of one) -- a helper that fills lists its caller has just created does not touch the network.
         callsites = {}
+        quals = {q for q, _ in funcs}
+        # module-level functions whose name is not also a method's (a bare call then names that function) and is never handed around as a value
+        modfuncs = {q for q in quals if "." not in q and sum(1 for q2 in quals if q2.split(".")[-1] == q) == 1}
         for q, fn in funcs:
             for c in ast.walk(fn):
                 if isinstance(c, ast.Call) and isinstance(c.func, ast.Attribute) and isinstance(c.func.value, ast.Name) and c.func.value.id in ("self", "cls") and c.func.attr in byname:
                     callsites.setdefault(c.func.attr, []).append((q, fn, c))
+                elif isinstance(c, ast.Call) and isinstance(c.func, ast.Name) and c.func.id in modfuncs:
+                    # a helper FUNCTION of the module called by its bare name: the same, whatever kind of helper the piece was moved into
+                    callsites.setdefault(c.func.id, []).append((q, fn, c))
+                elif isinstance(c, ast.Call) and isinstance(c.func, ast.Attribute) and isinstance(c.func.value, ast.Name) and f"{c.func.value.id}.{c.func.attr}" in quals:
+                    callsites.setdefault(c.func.attr, []).append((q, fn, c))        # a static helper called through the class name
         inputs = {q: (set(pnames[q]) if q.split(".")[-1] not in callsites else set()) for q, fn in funcs}
         changed = True
         while changed:
